@@ -9,7 +9,7 @@ fn customs_of(wasm: &[u8]) -> Result<Vec<(String, String)>> {
             let n = c.name();
             const DWARF: &[&str] = &[".debug_abbrev", ".debug_addr", ".debug_aranges", ".debug_frame", ".debug_info", ".debug_line", ".debug_line_str",
                 ".debug_loc", ".debug_loclists", ".debug_macinfo", ".debug_macro", ".debug_pubnames", ".debug_pubtypes", ".debug_ranges", ".debug_rnglists",
-                ".debug_str", ".debug_str_offsets", ".debug_types", ".debug_cu_index", ".debug_tu_index"];
+                ".debug_str", ".debug_str_offsets", ".debug_types", ".debug_cu_index", ".debug_tu_index", ".debug_names", ".debug_sup", ".debug_gnu_pubnames", ".debug_gnu_pubtypes"];
             if n == "name" || n == "producers" || DWARF.contains(&n) {
                 continue;
             }
@@ -76,7 +76,7 @@ pub fn customs(_args: &[String]) -> Result<Value> {
     // every DWARF section name (interpreted: not compared) next to near misses of it (not interpreted: must survive, in order)
     const DWARF_NAMES: &[&str] = &[".debug_abbrev", ".debug_addr", ".debug_aranges", ".debug_frame", ".debug_info", ".debug_line", ".debug_line_str",
         ".debug_loc", ".debug_loclists", ".debug_macinfo", ".debug_macro", ".debug_pubnames", ".debug_pubtypes", ".debug_ranges", ".debug_rnglists",
-        ".debug_str", ".debug_str_offsets", ".debug_types", ".debug_cu_index", ".debug_tu_index"];
+        ".debug_str", ".debug_str_offsets", ".debug_types", ".debug_cu_index", ".debug_tu_index", ".debug_names", ".debug_sup", ".debug_gnu_pubnames", ".debug_gnu_pubtypes"];
     let near: Vec<String> = DWARF_NAMES.iter().flat_map(|n| vec![format!("{n}x"), format!("{n}."), n[1..].to_string(), n.to_uppercase(), format!("{n}.dw"), format!(" {n}")])
         .chain([".debug_", ".debug_x", ".debu", ".debug_st", ".debug_in", ".debug_lin", ".debug_names_x", ".Debug_info"].iter().map(|s| s.to_string()))
         .filter(|n| !DWARF_NAMES.contains(&n.as_str())).collect();
@@ -91,6 +91,12 @@ pub fn customs(_args: &[String]) -> Result<Value> {
     }
     layouts.push(vec![(1, "big", vec![0xab; 70_000]), (5, "bigger", (0..200_000u32).map(|i| (i % 251) as u8).collect())]);
     layouts.push(vec![(3, "sourceMappingURL", b"\x10http://x/y.map".to_vec()), (5, "target_features", b"\x01+\x0bbulk-memory".to_vec())]);
+    // names for which wasmparser has a reader of its own (tool conventions, components, core dumps), with payloads those readers accept and
+    // payloads they do not: walrus interprets none of them
+    layouts.push(vec![(4, "metadata.code.branch_hint", vec![1, 0, 1, 1, 1, 1]), (5, "linking", vec![2]), (5, "component-name", b"\x00\x04demo".to_vec()),
+        (5, "core", b"\x00\x04proc".to_vec()), (5, "core", b"not a core dump".to_vec()), (5, "dylink.0", vec![]), (5, "reloc.CODE", vec![3, 0])]);
+    layouts.push(vec![(0, "coremodules", vec![0]), (1, "coreinstances", vec![0]), (2, "corestack", b"\x00\x04main\x00".to_vec()), (3, "component-type", vec![0]),
+        (5, "dylink", vec![0, 0, 0, 0, 0]), (5, "external_debug_info", b"\x05a.dbg".to_vec()), (5, "build_id", vec![4, 1, 2, 3, 4]), (5, "metadata.code.trace_inst", vec![0])]);
     let mut failures = vec![];
     let mut checked = 0;
     for l in &layouts {
@@ -233,6 +239,23 @@ pub fn emit_twice(_args: &[String]) -> Result<Value> {
     ] {
         inputs.push((name.to_string(), wat::parse_str(text)?));
     }
+    // producers sections with several fields and values (the default configuration keeps them and records walrus): the field order must not
+    // depend on a hash seed, neither between two Module values nor across the round trip
+    for (k, fields) in [
+        vec![("language", vec![("Rust", "1.70"), ("C", "11")]), ("sdk", vec![("emsdk", "3")]), ("processed-by", vec![("clang", "15"), ("rustc", "1.0")])],
+        vec![("processed-by", vec![("walrus", "0.0.1")]), ("language", vec![("C", "11")]), ("sdk", vec![("a", "1"), ("b", "2"), ("c", "3")]), ("zz-custom", vec![("x", "y")]), ("aa-custom", vec![("p", "q")])],
+        vec![("sdk", vec![("emsdk", "3")]), ("language", vec![("Zig", "0.11")])],
+    ].into_iter().enumerate() {
+        let mut wasm = wat::parse_str(r#"(module (memory 1) (func (export "f") (result i32) (i32.load (i32.const 0))))"#)?;
+        let mut p = wasm_encoder::ProducersSection::new();
+        for (fname, vals) in &fields {
+            let mut pf = wasm_encoder::ProducersField::new();
+            for (a, b) in vals { pf.value(a, b); }
+            p.field(fname, &pf);
+        }
+        wasm_encoder::Section::append_to(&p, &mut wasm);
+        inputs.push((format!("producers-{k}"), wasm));
+    }
     for (name, wasm) in inputs {
         checked += 1;
         let w2 = wasm.clone();
@@ -243,6 +266,11 @@ pub fn emit_twice(_args: &[String]) -> Result<Value> {
             let c = m.emit_wasm();
             if a != b || b != c {
                 return Ok(Some(format!("emit #1: {} bytes, #2: {} bytes, #3: {} bytes", a.len(), b.len(), c.len())));
+            }
+            // other Module values parsed from the same bytes emit the same bytes
+            for _ in 0..6 {
+                let other = walrus::ModuleConfig::new().parse(&w2)?.emit_wasm();
+                if other != a { return Ok(Some(format!("two Module values parsed from the same bytes emit different bytes ({} vs {} bytes)", a.len(), other.len()))); }
             }
             // fixpoint: parse(emit(m)) emits the same bytes
             let mut m2 = walrus::ModuleConfig::new().parse(&a)?;
